@@ -58,6 +58,10 @@ def _match_one(m, v):
             got = flat.get(key[:-4])
             if not isinstance(got, (list, tuple, set)) or want not in got:
                 return False
+        elif key.endswith("_all"):
+            got = flat.get(key[:-4])
+            if not isinstance(got, (list, tuple, set)) or not all(w in got for w in want):
+                return False
         elif key.endswith("_in"):
             if flat.get(key[:-3]) not in want:
                 return False
